@@ -203,10 +203,15 @@ func runConn(c *mon.Case, r *mon.Run, dir string, p params) {
 		c.Go(wg.Done, func() {
 			off := int64(0)
 			sawSeed := false
+			nPk := 0
 			for off < int64(wantReal) {
 				pk, err := rc.ReadPackets()
 				for _, q := range pk {
 					r.Count("frames_decoded", 1)
+					nPk++
+					if nPk == 1 && p.role == "refclient" && q.Type != ref.PacketPrngSeed {
+						viol("format/seed-frame-not-right-behind-response", "the first frame behind the server response is a type-%d packet of %d bytes, not the PRNG-seed frame", q.Type, q.FrameLen)
+					}
 					r.Max("frame_len_max", int64(q.FrameLen))
 					r.Min("frame_len_min", int64(q.FrameLen))
 					if q.FrameLen > ref.MaxSegment || q.FrameLen < ref.FrameOverhead+ref.PacketOverhead {
@@ -308,12 +313,11 @@ func runConn(c *mon.Case, r *mon.Run, dir string, p params) {
 		} else if p.steer != 0 {
 			r.Count("steered_extreme_padding", 1)
 		}
-		if len(w) == 0 || w[0].N != sr.Len+ref.SeedFrameLength {
-			n0 := -1
-			if len(w) > 0 {
-				n0 = w[0].N
-			}
-			viol("format/seed-frame-not-with-response", "first server write is %d bytes, response is %d + 45-byte seed frame", n0, sr.Len)
+		// (whether response and seed frame leave in one write is the
+		// implementation's choice and only recorded; that the seed frame is the
+		// first frame behind the response is judged where frames are decoded)
+		if len(w) > 0 && w[0].N == sr.Len+ref.SeedFrameLength {
+			r.Count("seed_frame_in_the_same_write_as_the_response", 1)
 		}
 		if sr.Len+ref.SeedFrameLength > ref.MaxHandshakeLength || len(data) < sr.Len {
 			viol("format/server-handshake-length", "server response %d + seed frame exceeds 8192", sr.Len)
@@ -356,8 +360,8 @@ func runConn(c *mon.Case, r *mon.Run, dir string, p params) {
 			break
 		}
 		w, _, _ := c2s.Snapshot()
-		if len(w) == 0 || w[0].N != len(blob) {
-			viol("format/client-hello-write", "client hello not sent in one write")
+		if len(w) > 0 && w[0].N == len(blob) {
+			r.Count("client_hello_sent_in_one_write", 1) // recorded, not judged
 		}
 		if len(blob) < ref.ClientMinHandshake+ref.ClientMinPad || len(blob) > ref.MaxHandshakeLength {
 			viol("format/client-hello-length", "client hello of %d bytes outside [141,8192]", len(blob))
